@@ -1,6 +1,7 @@
 import LokiModel.C06.Proof4
+import LokiModel.C06.ProofC4
 /-!
-# C06 — printed expressions denote the expression tree they were printed from (Fortran backend)
+# C06 — printed expressions denote the expression tree they were printed from (Fortran and C backends)
 
 Model: `printF cfg t p` (`LokiModel/C06/Model.lean`) mirrors `FCodeMapper` / `LokiStringifyMapper` /
 pymbolic's `StringifyMapper` token for token (checked against the real `fgen` on every run); `G ℓ ts s`
@@ -12,6 +13,14 @@ false of the code as it stands (see `LokiModel/Findings/C06.lean` and `known_fin
 for every tree in the decidable class `Good`, which is closed under everything the frontend produces and under
 substitution of sums into sums and products into products (re-association is proved value-preserving), and
 excludes exactly the positions where Loki's precedence numbers disagree with the grammar.
+
+C backend: `printC cfg t p` (`LokiModel/C06/ModelC.lean`) mirrors `CCodeMapper` over the same tree type and is checked against the
+real `cgen` mapper token for token (C tokens, maximal munch: `--` is one token); `GC ℓ ts s` (`LokiModel/C06/GrammarC.lean`) is the C99
+expression grammar (6.5) as a derivation relation over the same semantic trees and the same `evalS`.  `C06_C_partial` is the
+statement for every tree of the decidable class `GoodC` — where Loki's precedence numbers agree with the **C** grammar: unlike for
+Fortran, signs after operators (`a*-b`, `a - -b`) are inside, and a negated product `-a*b`, which C reads `(-a)*b`, is proved
+value-equal to `-(a*b)` (`C06_C_neg_push`).  Convention: `pow(a, b)` means `S.pow a b` with the model's integer power; real C returns
+`double` (documented limitation, see `notes/C06C.md`).
 -/
 namespace LokiModel.C06
 open LokiModel.Expr Tables Tok
@@ -93,5 +102,101 @@ example : Good fcfg (.sum false [.var "a", .sum false [.var "b", .var "c"],
 /-- logical layer -/
 example : Good fcfg (.lor [.land [.cmp .lt (.var "a") (.sum false [.var "b", .ilit 1]), .lnot (.var "p")],
                            .lnot (.cmp .eq (.var "a") (.var "b"))]) = true := by decide
+
+/-! ## C backend -/
+
+/-- the full statement of C06 for the C backend (kept visible; false of the current code) -/
+def C06_C_full : Prop :=
+  ∀ (t : E) (p : Nat), ∃ s, GC 0 (printC ccfg t p) s ∧ ∀ env, evalS env s = evalS env (den t)
+
+/-- **C06, C printer, partial**: for every printer configuration, every tree of the class `GoodC` and every enclosing
+precedence, the printed C token list is derivable in the C expression grammar — at the level `outLvC t p` its position
+requires — with a semantic tree that has the value of the tree (or fails like it) under every valuation.  Unbounded depth
+and width.  Not covered (outside `GoodC`): the known-finding classes below and an unproven region (n-ary minus terms
+`Product((-1, a, b))` in sums, `&&`/`||` chains nested on the right, `a * -b*c`), where only the direct oracle speaks. -/
+theorem C06_C_partial (cfg : Cfg) (t : E) (hg : GoodC cfg t = true) (p : Nat) :
+    ∃ s, GC (outLvC t p) (printC cfg t p) s ∧ ∀ env, evalS env s = evalS env (den t) := by
+  obtain ⟨hA, _⟩ := (PC_all cfg t).1 hg
+  obtain ⟨s, hs, he⟩ := hA p
+  exact ⟨s, hs, he⟩
+
+/-- the same at expression level, for the configuration read from the current `CCodeMapper` -/
+theorem C06_C_partial_expr (t : E) (hg : GoodC ccfg t = true) (p : Nat) :
+    ∃ s, GC 0 (printC ccfg t p) s ∧ ∀ env, evalS env s = evalS env (den t) := by
+  obtain ⟨s, hs, he⟩ := C06_C_partial ccfg t hg p
+  exact ⟨s, hs.weaken (Nat.zero_le _) (outLvC_le _ _), he⟩
+
+/-- C's unary minus binds tighter than `*` and `/`: a sign written in front of a multiplicative expression belongs to its
+first factor, and the value is nevertheless the negation of the whole (`-a*b/c` = `-((a*b)/c)`, truncating division included) -/
+theorem C06_C_neg_push {ℓ : Nat} {ts : List CTok} {s : S} (h : GC ℓ ts s) (h5 : 5 ≤ ℓ) :
+    ∃ s', GC 5 ([CTok.minus] ++ ts) s' ∧ ∀ env, evalS env s' = evalS env (.neg s) := by
+  obtain ⟨s', hs, he⟩ := neg_push h h5
+  exact ⟨s', hs, he⟩
+
+/-- substitution closure, sums (C) -/
+theorem C06_C_sum_in_sum (cfg : Cfg) (t : E) (hg : GoodC cfg t = true) (ht : termOKC t = true) :
+    ∀ X acc, GC 4 X acc → ∃ s, GC 4 (X ++ [CTok.plus] ++ printC cfg t PREC_SUM) s ∧
+      ∀ env, evalS env s = evalS env (.add acc (den t)) := by
+  obtain ⟨_, _, hK⟩ := (PC_all cfg t).1 hg
+  intro X acc hX
+  obtain ⟨s, hs, he⟩ := hK ht X acc hX
+  exact ⟨s, hs, he⟩
+
+/-- substitution closure, products (C) -/
+theorem C06_C_prod_in_prod (cfg : Cfg) (t : E) (hg : GoodC cfg t = true) (ht : factorOKC t = true) :
+    ∀ X acc, GC 5 X acc → ∃ s, GC 5 (X ++ [CTok.star] ++ printC cfg t PREC_PRODUCT) s ∧
+      ∀ env, evalS env s = evalS env (.mul acc (den t)) := by
+  obtain ⟨_, hK, _⟩ := (PC_all cfg t).1 hg
+  intro X acc hX
+  obtain ⟨s, hs, he⟩ := hK ht X acc hX
+  exact ⟨s, hs, he⟩
+
+/-- a minus term `Product((-1, x))` as a later term of a sum: printed `X - x` with separate sign tokens, so `x` may itself
+start with a sign (`a - -b`); `GoodCm cfg true` is the class for that position -/
+theorem C06_C_minus_term (cfg : Cfg) (t x : E) (hg : GoodCm cfg true t = true) (hx : sumNeg t = some x) :
+    ∀ X acc, GC 4 X acc → ∃ s, GC 4 (X ++ [CTok.minus] ++ printC cfg x PREC_PRODUCT) s ∧
+      ∀ env, evalS env s = evalS env (.add acc (den t)) := by
+  intro X acc hX
+  obtain ⟨s, hs, he⟩ := (PC_all cfg t).2 hg x hx X acc hX
+  exact ⟨s, hs, he⟩
+
+/-! ### the known-finding classes lie outside `GoodC` -/
+
+/-- class `product-factor-quotient-unparenthesised` (C) -/
+theorem C06_C_known_prodQuot (cfg : Cfg) (par : Bool) (a b c : E) (hm : isMinusOne a = false) :
+    GoodC cfg (.prod par [a, .quot false b c]) = false := by
+  simp [GoodC, GoodCm, hm, factorOKC, outLvC]
+
+/-- class `c-double-minus-decrement`: a sign glued in front of a text that starts with a sign -/
+theorem C06_C_known_doubleMinus (cfg : Cfg) (par : Bool) (c x : E) (hm : isMinusOne c = true)
+    (hs : startsMinus (printC cfg x PREC_PRODUCT) = true) :
+    GoodC cfg (.prod par [c, x]) = false := by
+  simp [GoodC, GoodCm, hm, hs]
+
+/-- … and no token list containing the decrement token is an expression of the modelled sub-language -/
+theorem C06_C_decr_not_derivable {ℓ : Nat} {ts : List CTok} {s : S} (h : GC ℓ ts s) : CTok.decr ∉ ts :=
+  GC.no_decr h
+
+/-! ### non-vacuity (C): non-trivial trees inside `GoodC` -/
+
+/-- `a - b*c + d*(x/y) - pow(n + 1, 2) / (a*b)`, frontend shape -/
+example : GoodC ccfg
+    (.sum false [.sum false [.sum false [.var "a", .prod false [.pyint (-1), .prod false [.var "b", .var "c"]]],
+                             .prod false [.var "d", .quot true (.var "x") (.var "y")]],
+                 .prod false [.pyint (-1), .quot false (.pow false (.sum true [.var "n", .ilit 1]) (.ilit 2))
+                                                       (.prod true [.var "a", .var "b"])]]) = true := by decide
+
+/-- shapes that are not Fortran but are C: `a*-b`, `a / -b`, `a + -3`, `a - -b`, `-a*b` as a first term, `pow` of anything -/
+example : GoodC ccfg (.sum false [.prod false [.pyint (-1), .prod false [.var "a", .var "b"]],
+    .prod false [.var "a", .prod false [.pyint (-1), .var "b"]],
+    .quot false (.var "a") (.prod false [.ilit (-1), .var "b"]),
+    .ilit (-3),
+    .prod false [.pyint (-1), .prod false [.pyint (-1), .var "b"]],
+    .pow false (.sum false [.var "a", .prod false [.pyint (-1), .var "b"]]) (.quot false (.var "n") (.ilit 2))]) = true := by decide
+
+/-- logical layer (C) -/
+example : GoodC ccfg (.lor [.land [.cmp .lt (.var "a") (.sum false [.var "b", .ilit 1]), .lnot (.var "p")],
+                            .lnot (.cmp .eq (.var "a") (.var "b")),
+                            .cmp .eq (.cmp .lt (.var "a") (.var "b")) (.blit true)]) = true := by decide
 
 end LokiModel.C06
